@@ -248,7 +248,8 @@ def rule_dep1(A: Analysis, rep):
     st = [s for s in walk_local(bi.node) if isinstance(s, ast.Assign) and norm(s.targets[0]) == "self._deps"]
     rep.check(len(st) == 1 and norm(st[0].value) in ("tuple(deps)", "list(deps)", "deps"), "DEP1", "deps stored in listing order", bi.node, "", "TaskType stores deps as `%s`" % (norm(st[0].value) if st else "?"))
     mt = A.fn("parsing.task_index.TaskIndex._materialize_raw_task")
-    loops = [l for l in walk_local(mt.node) if isinstance(l, ast.For) and norm(l.iter) == "raw_task['deps']"]
+    from .graphs import raw_deps_loops
+    loops = raw_deps_loops(A, mt)
     ok = False
     if len(loops) == 1:
         g = A.cfg(mt, "plain")
